@@ -7,6 +7,9 @@
       the constructor check and the ASCII gate): the ONLY exception kind is ValueError — at full
       strength, no OverflowError exception class is left (D-C20b / D-C20d are fixed in /repo).
     * `sep_exact`: with a configured separator, the byte between date and time is that byte.
+    * `parse_tzstr_sound`: COMPLETE soundness of the offset entry point — an accepted string is
+      exactly the rendering of an offset form (Z, z, ±HH, ±HHMM, ±HH:MM) with in-range two-digit
+      fields, and the value is its denotation (zero_as_utc respected), for ALL byte strings.
     * `fields_are_digits`: every numeric field the parser converts is exactly `width` ASCII
       digits and its value is the decimal reading (what D-C20 broke before the repair).
 
@@ -19,10 +22,11 @@
 
   i.e. the "parse then print gives back the input" direction for `_parse_isodate` and the
   `_parse_isotime` loop on ARBITRARY input.  The converse direction (C07.isoparse_render) is
-  proved for all forms.  The per-entry-point instances `parse_tzstr_sound` / `parse_isodate_sound`
-  are not proved either.
+  proved for all forms, and `parse_tzstr_sound` below is the complete instance for the offset
+  grammar; `parse_isodate_sound` is not proved.
 -/
 import DateutilVerif.Proofs.IsoErrors
+import DateutilVerif.Proofs.IsoTzSound
 namespace C20
 open Iso Py
 
@@ -66,6 +70,13 @@ theorem sep_exact (c : Nat) (s : Bytes) (v : Result) (h : isoparse (some c) s = 
 theorem fields_are_digits (f : Bytes) (w : Nat) (v : Int) (hw : 0 < w) :
     parseDigits f w = .ok v ↔ (f.length = w ∧ f.all isDigit = true ∧ v = (digitsVal f : Nat)) :=
   parseDigits_ok_iff f w v hw
+
+/-- COMPLETE soundness of `parse_tzstr`: accepted ⇒ the string is the rendering of an offset form
+    with in-range fields and the value is its denotation -/
+theorem parse_tzstr_sound (s : Bytes) (z : Bool) (v : Off) (h : parseTzstr s z = .ok v) :
+    ∃ o x, o ≠ IsoSpec.OffForm.naive ∧ IsoSpec.offWF o x = true ∧ s = IsoSpec.renderOff o x ∧
+      v = offValue z o x :=
+  parseTzstr_sound s z v h
 
 /-! non-vacuity -/
 example : isoparse none [50,48,49,52,45,48,49,45,48,49,84,50,53] = .error .ValueError := by decide +kernel
